@@ -277,7 +277,20 @@ func cmdCheck(args []string) int {
 			}
 		}
 		if failed && len(rep.Errors) == 0 {
-			rep2 := verifyFunction(p, c, cfg, filter)
+			// the confirmation run gets four times the solver budget, so that a timeout under load is not mistaken for a failure
+			cfg2 := cfg
+			cfg2.TimeoutS = cfg.TimeoutS * 4
+			rep2 := verifyFunction(p, c, cfg2, func(o *Obl) bool {
+				if o.Smoke {
+					return true
+				}
+				for _, r := range rep.Results {
+					if r.Name == o.Name && r.Status != "proved" {
+						return true
+					}
+				}
+				return false
+			})
 			ok2 := map[string]*OblResult{}
 			for _, r := range rep2.Results {
 				ok2[r.Name] = r
